@@ -118,12 +118,17 @@ class RateLimiter(BaseRateLimiter):
         return False
 
     def cleanup(self):
+        # the longest interval of any per-address rule (generic "ip" rules and
+        # rules for specific addresses): nothing younger than that may be forgotten
         max_interval = 0
-        if not self.rules.get("ip"):
+        for key, commands in self.rules.items():
+            if key == "global":
+                continue
+            for rules in commands.values():
+                rule_res = max(rules)[0]
+                max_interval = max(rule_res, max_interval)
+        if not max_interval:
             return
-        for rules in self.rules["ip"].values():
-            rule_res = max(rules)[0]
-            max_interval = max(rule_res, max_interval)
 
         now = self._timestamp()
         to_del = []
